@@ -43,6 +43,7 @@ type PQ struct {
 	Ops      []Op
 	NoRecord bool
 	Prop     string // property violations of the FIFO oracle are reported under
+	resizeTo int    // pending maximum size change, applied by the next Open
 	Faulty   bool   // errors from out-of-space are expected
 	full     bool   // last producer call failed (file full)
 
@@ -75,10 +76,22 @@ func (p *PQ) Open() error {
 	if err := p.D.Lock(true, false); err != nil {
 		return err
 	}
-	f, err := p.E.OpenFile(p.D, p.fileOptions())
+	opts := p.fileOptions()
+	if p.resizeTo > 0 {
+		// change the maximum size of the existing file at open time
+		opts.Flags |= txfile.FlagUpdMaxSize
+		opts.MaxSize = uint64(p.resizeTo)
+		opts.InitMetaArea = 0
+	}
+	f, err := p.E.OpenFile(p.D, opts)
 	if err != nil {
 		p.D.Unlock()
 		return err
+	}
+	if p.resizeTo > 0 {
+		p.Cfg.MaxSize = p.resizeTo / p.Cfg.PageSize * p.Cfg.PageSize
+		p.resizeTo = 0
+		p.full = false
 	}
 	p.F = f
 	p.E.Yield("opened")
@@ -390,6 +403,15 @@ func (p *PQ) apply(op Op) bool {
 			return false
 		}
 		p.Reopen()
+		return true
+
+	case "resize": // A = new maximum file size in bytes
+		if p.Q == nil || p.rdActive || op.A <= 0 || p.Cfg.MaxSize == 0 {
+			return false
+		}
+		p.resizeTo = op.A
+		p.Reopen()
+		p.E.Probe("pq_reopen_with_new_max_size")
 		return true
 	}
 	panic("unknown pq op " + op.K)
